@@ -105,7 +105,7 @@ def check_term(term, res=None, second=False):
     T.MARGIN = .05
     try:
         envs = []
-        for env in T.valuations(args, nsets=3, exhaustive_int=False):
+        for env in T.valuations(args, nsets=3, exhaustive_int=False, zero_first=T.depth(term) <= 1):
             try:
                 r = T.ref(term, env)
             except T.OutOfDomain:
@@ -240,7 +240,8 @@ def _one(term, res, second):
 # ------------------------------------------------------------- user-defined operations and function-level derivative
 
 def custom_cases():
-    return [{'case': c, 'target': t} for c in ('custom-square', 'custom-outer', 'function-derivative-byname', 'function-derivative-byobject', 'custom-shared') for t in ('u', 'v')]
+    return [{'case': c, 'target': t} for c in ('custom-square', 'custom-outer', 'function-derivative-byname', 'function-derivative-byobject', 'custom-shared') for t in ('u', 'v')] + \
+        [{'case': c, 'target': 'w'} for c in ('factor-3d-scalar', 'factor-3d-vector', 'factor-2d')]
 
 
 _CUSTOM = []
@@ -290,6 +291,28 @@ def check_custom(c):
     v = function.Argument('v', (3,))
 
     Sq, Outer = _custom_classes()
+    if c['case'].startswith('factor'):
+        # derivative of a FACTORED polynomial (evaluable.factor -> Monomial nodes) in an argument with 2 or 3 axes of different lengths
+        shape = (2, 3, 4) if '3d' in c['case'] else (3, 2)
+        w = function.Argument('w', shape)
+        W0 = (numpy.arange(int(numpy.prod(shape)), dtype=float).reshape(shape) % 7 - 3) * .25 + .125
+        cst = numpy.cos(numpy.arange(int(numpy.prod(shape)), dtype=float).reshape(shape))
+        if 'vector' in c['case']:
+            f = numpy.sum(w * w * cst, axis=0) + numpy.sum(w, axis=0) * numpy.sum(w * cst)
+            rf = lambda e: (e['w'] ** 2 * cst).sum(0) + e['w'].sum(0) * (e['w'] * cst).sum()
+        else:
+            f = numpy.sum(w * w * cst) + numpy.sum(w * cst) * numpy.sum(w)
+            rf = lambda e: (e['w'] ** 2 * cst).sum() + (e['w'] * cst).sum() * e['w'].sum()
+        vals = {'w': W0}
+        for order in (1, 2):
+            d = function.derivative(function.factor(f), 'w') if order == 1 else function.derivative(function.derivative(function.factor(f), 'w'), 'w')
+            val = function.eval(d, arguments=vals)
+            J = fd_jacobian(rf, vals, 'w') if order == 1 else fd_jacobian(lambda e: fd_jacobian(rf, e, 'w'), vals, 'w')
+            if val.shape != J.shape:
+                return 'derivative {} of the factored polynomial has shape {} instead of {}'.format(order, val.shape, J.shape)
+            if not (abs(val - J) <= 100 ** (order - 1) * TOL * (1 + abs(J).max())).all():
+                return 'derivative {} of the factored polynomial = {} but finite differences give {}'.format(order, irtools.describe(val), irtools.describe(J))
+        return None
     vals = {'u': numpy.array([.75, -1.25]), 'v': numpy.array([.5, 1.5, -.25])}
     if c['case'] == 'custom-square':
         f = Sq(u * numpy.sum(v))
